@@ -10,7 +10,7 @@ import random
 from . import common as C, proggen as P, progrun as R
 
 PROP = "C03"
-MODULES = ["RuschmProofs.C03", "RuschmProofs.C03More"]
+MODULES = ["RuschmProofs.C03", "RuschmProofs.C03More", "RuschmProofs.C03Self"]
 PRELUDE = [
     "(define (mk-counter) (let ((n 0)) (lambda () (set! n (+ n 1)) n)))",
     "(define (mk-pair) (let ((n 0)) (cons (lambda (d) (set! n (+ n d)) n) (lambda () n))))",
